@@ -43,6 +43,18 @@ PROPS = {
         ],
         "assumptions": ASSUME_COMMON,
     },
+    "C05": {
+        "level": "exploration",
+        "design_ref": "§6 C05",
+        "level_text": L_EXPL + "; membership and pairwise conflict are enumerated exhaustively over the 14-version universe U (134 ranges, 17 956 ordered pairs), random versions/ranges on top",
+        "level_note": "trusts the own semver-precedence comparator and interval algebra (unit-tested against the semver spec's example chain); exhaustive only over U",
+        "technique": "runtime monitoring: exhaustive + random comparison of real routing/OpenAPI membership and registration conflicts with an own semver/range model; live header-policy probes",
+        "engines": [
+            {"name": "c05-exhaustive"},
+            {"name": "c05-random"},
+        ],
+        "assumptions": ASSUME_COMMON,
+    },
     "C04": {
         "level": "exploration",
         "design_ref": "§6 C04",
